@@ -93,7 +93,16 @@ def parse_time_atom(a: str):
             except Exception:
                 pass
         return dt.astimezone().replace(tzinfo=None)
-    return dt.astimezone(timezone(timedelta(minutes=int(pres))))
+    return dt.astimezone(_zone(pres))
+
+
+def _zone(pres):
+    """`<offset minutes>` -> fixed-offset zone; `zi:<name>` -> rule-based zone from the tz database"""
+    if pres.startswith("zi:"):
+        from zoneinfo import ZoneInfo
+
+        return ZoneInfo(pres[3:])
+    return timezone(timedelta(minutes=int(pres)))
 
 
 def parse_val(a: str):
@@ -358,7 +367,7 @@ def upd_time(t):
         def f(old, k=k, pres=pres):
             r = old + timedelta(microseconds=k)
             if pres is not None:
-                r = r.astimezone(timezone(timedelta(minutes=int(pres))))
+                r = r.astimezone(_zone(pres))
             return r
 
         return f
@@ -496,6 +505,9 @@ def show_time(dt):
     us = us_of(dt)
     if off != timedelta(0):
         return f"{us}@{int(off.total_seconds() // 60)}"
+    if dt.tzinfo != UTC:
+        # at offset zero, but not the UTC zone (Europe/London in winter, ZoneInfo("UTC"), ...)
+        return f"{us}@tz:{dt.tzinfo}"
     return str(us)
 
 
